@@ -575,7 +575,43 @@ def sock_exhaustive(ntasks: int, depth: int, reading0: bool):
 # ------------------------------------------------------------------------------------------------------------
 
 U_OK, U_READY, U_CANCEL, U_CLOSE, U_ERR = range(5)
-UOPN = {0: "Ok", 1: "Block/Ready", 2: "Block/Cancel", 3: "Block/Close", 4: "Err"}
+U_PARK = 10   # codes 11/12/13: would-block during which OTHER tasks invoke entry points of the same stream, then Ready/Cancel/Close
+UOPN = {0: "Ok", 1: "Block/Ready", 2: "Block/Cancel", 3: "Block/Close", 4: "Err",
+        11: "Park[intruders]/Ready", 12: "Park[intruders]/Cancel", 13: "Park[intruders]/Close"}
+E_SEND, E_SENDEOF, E_SENDFDS, E_RECEIVE, E_RECEIVEFDS = 1, 2, 3, 4, 5
+ENTRYN = {1: "send", 2: "send_eof", 3: "send_fds", 4: "receive", 5: "receive_fds"}
+
+
+def enc_entries(es) -> int:
+    """intruders of a parked send, base 4, least significant digit first (codec of UnixLoop.decode_digits)"""
+    return sum(e * 4 ** i for i, e in enumerate(es))
+
+
+def dec_entries(a: int) -> list[int]:
+    out = []
+    for _ in range(8):
+        if a % 4 == 0:
+            break
+        out.append(a % 4)
+        a //= 4
+    return out
+
+
+def entry_wake(kind: int, e):
+    """(wake code, intruding entry points) of a would-block script entry"""
+    if e[0] > U_PARK:
+        return e[0] - U_PARK, (dec_entries(e[1]) if kind == 0 else list(e[2]))
+    return e[0], []
+
+
+def script_readable(kind: int, script):
+    out = []
+    for e in script:
+        if e[0] > U_PARK:
+            out.append((UOPN[e[0]], [ENTRYN.get(x, x) for x in entry_wake(kind, e)[1]]))
+        else:
+            out.append((UOPN[e[0]],) + tuple(e[1:]))
+    return out
 
 
 class ScriptExhausted(BaseException):
@@ -595,10 +631,23 @@ class FakeRawSocket:
         self.closed = True
 
     def shutdown(self, how):
-        pass
+        self.run.shut = True
+        if self.run.intruding and not self.run.shut_while_parked:
+            self.run.shut_while_parked = True
+            self.run.shut_at = len(self.run.handed)
+
+    def sendmsg(self, *a):
+        return self._next()    # never scripted: only reached through the intrusion check below
+
+    def recvmsg(self, *a):
+        return self._next()
 
     def _next(self):
         r = self.run
+        if r.intruding:
+            # a second task got past the guard and reached the kernel while the first call is parked
+            r.intr_kernel_calls += 1
+            raise OSError(32, "intruder reached the socket")
         if r.pos >= len(r.script):
             raise ScriptExhausted()
         e = r.script[r.pos]
@@ -617,7 +666,7 @@ class FakeRawSocket:
             return n
         if e[0] == U_ERR:
             raise OSError(9 if self.closed else 32, "injected")
-        r.pending_wake = e[0]
+        r.pending_wake, r.pending_intr = entry_wake(0, e)
         raise BlockingIOError()
 
     def recv(self, n):
@@ -628,7 +677,7 @@ class FakeRawSocket:
             return bytes(e[2])
         if e[0] == U_ERR:
             raise OSError(9 if self.closed else 104, "injected")
-        r.pending_wake = e[0]
+        r.pending_wake, r.pending_intr = entry_wake(1, e)
         raise BlockingIOError()
 
 
@@ -645,12 +694,19 @@ class UnixRun:
         self.send_args: list[bytes] = []
         self.recv_args: list[int] = []
         self.pending_wake = None
+        self.pending_intr: list[int] = []
+        self.intruding = False
+        self.intr_kernel_calls = 0
+        self.intr: list[tuple[int, int, int]] = []  # (entry point, outcome code, bytes accepted so far) of every intruding call
+        self.shut = False
+        self.shut_while_parked = False
+        self.shut_at = 0
         self.mon: list[str] = []
         self.flags: set[str] = set()
 
     def valid(self) -> bool:
         """aclose() wakes a waiting call only once: a wait cannot end by 'close' on an already closed stream."""
-        ncl = sum(1 for e in self.script if e[0] == U_CLOSE)
+        ncl = sum(1 for e in self.script if e[0] in (U_CLOSE, U_PARK + U_CLOSE))
         return ncl <= (0 if self.closing0 else 1)
 
     def case(self) -> list[int]:
@@ -659,7 +715,7 @@ class UnixRun:
             if self.kind == 0:
                 out += [e[0], e[1]]
             else:
-                pl = list(e[2]) if e[0] == U_OK else []
+                pl = list(e[2]) if (e[0] == U_OK or e[0] > U_PARK) else []
                 out += [e[0], len(pl), *pl]
         return out
 
@@ -723,7 +779,12 @@ class UnixRun:
                 while out is not None and out[0] == "blocked" and steps < 200:
                     steps += 1
                     if not w.runnable(w.puppets[1]):
-                        # suspended on the readiness future: end the wait as the script says
+                        # parked on the readiness future: first the other tasks' calls on the same stream ...
+                        for ent in self.pending_intr:
+                            at = len(self.handed)
+                            self.intr.append((ent, self.intrude(w, stream, anyio, ent), at))
+                        self.pending_intr = []
+                        # ... then end the wait as the script says
                         wk = self.pending_wake
                         self.pending_wake = None
                         reg = regs["w" if self.kind == 0 else "r"]
@@ -759,6 +820,43 @@ class UnixRun:
         self.monitor()
         return self
 
+    def intrude(self, w, stream, anyio, ent: int) -> int:
+        """Puppet 2 invokes one entry point of the stream while puppet 1 is parked.  7 = BusyResourceError,
+        14 = admitted (returned normally), 15 = anything else."""
+        if ent == E_SEND:
+            async def cmd(p):
+                return await stream.send(b"\xff")
+        elif ent == E_SENDEOF:
+            async def cmd(p):
+                return await stream.send_eof()
+        elif ent == E_SENDFDS:
+            async def cmd(p):
+                return await stream.send_fds(b"\xff", [0])
+        elif ent == E_RECEIVE:
+            async def cmd(p):
+                return await stream.receive(1)
+        else:
+            async def cmd(p):
+                return await stream.receive_fds(1, 1)
+        self.intruding = True
+        try:
+            out = w.act(2, cmd)
+            for _ in range(6):
+                if out is None or out[0] != "blocked" or not w.runnable(w.puppets[2]):
+                    break
+                out = w.resume(2)         # the intruder's own checkpoint
+            if out is not None and out[0] == "blocked":
+                w.puppets[2].task.cancel()
+                w.resume(2)
+                return 15
+        finally:
+            self.intruding = False
+        if out is None:
+            return 15
+        if out[0] == "ok":
+            return 14
+        return 7 if isinstance(out[1], anyio.BusyResourceError) else 15
+
     def observe(self, anyio):
         out = self.outcome
         if out is None or out[0] == "blocked":
@@ -776,7 +874,8 @@ class UnixRun:
                     r = [code]
                     break
         self.res = r
-        self.expected = r + [self.calls, self.waits, int(self.closing_after), int(self.guard_after), -1, *self.handed]
+        self.expected = r + [self.calls, self.waits, int(self.closing_after), int(self.guard_after), -1, *self.handed,
+                             -2, int(self.shut), *[c for (_, c, _) in self.intr]]
 
     def monitor(self):
         m = self.mon.append
@@ -818,9 +917,25 @@ class UnixRun:
                 last = self.script[self.pos - 1] if self.pos else None
                 if not last or last[0] != U_OK or len(last[2]) != 0:
                     m("EndOfStream although the kernel did not report EOF")
-        if any(e[0] in (U_READY, U_CANCEL, U_CLOSE) for e in self.script[:self.pos]):
+        if any(e[0] in (U_READY, U_CANCEL, U_CLOSE) or e[0] > U_PARK for e in self.script[:self.pos]):
             self.flags.add("would_block")
-        closed_locally = self.closing0 or any(e[0] == U_CLOSE for e in self.script[:self.pos])
+        # other tasks using the same direction while this call was parked
+        call = "send" if self.kind == 0 else "receive"
+        same_dir = (E_SEND, E_SENDEOF, E_SENDFDS) if self.kind == 0 else (E_RECEIVE, E_RECEIVEFDS)
+        for ent, code, at in self.intr:
+            self.flags.add("intruder:" + ENTRYN[ent])
+            if ent in same_dir and code != 7:
+                how = "was accepted" if code == 14 else "ended with another error"
+                where = f"after {at} of {len(item)} bytes " if self.kind == 0 else ""
+                m(f"{ENTRYN[ent]}() by a second task while {call}() was parked {where}"
+                  f"{how} (expected BusyResourceError: two tasks on the same direction)")
+        if self.shut_while_parked:
+            m(f"the socket was shut down for writing while send() was parked after {self.shut_at} of {len(item)} "
+              f"bytes: the peer reads a truncated message and then a clean EndOfStream" if self.kind == 0 else
+              "the socket was shut down for writing by a task that should have been refused")
+        if self.intr_kernel_calls:
+            m(f"a second task reached the kernel socket {self.intr_kernel_calls} time(s) while {call}() was parked (data would interleave)")
+        closed_locally = self.closing0 or any(e[0] in (U_CLOSE, U_PARK + U_CLOSE) for e in self.script[:self.pos])
         if k == 5:
             self.flags.add("closed_error")
             if not closed_locally:
@@ -839,7 +954,7 @@ class UnixRun:
             m("guard still held after the call ended")
         if k == 2:
             self.flags.add("cancelled")
-            if not (self.cancel0 or any(e[0] == U_CANCEL for e in self.script[:self.pos])):
+            if not (self.cancel0 or any(e[0] in (U_CANCEL, U_PARK + U_CANCEL) for e in self.script[:self.pos])):
                 m("CancelledError without a cancel request")
         if k in (9, 12, 13):
             m(f"call did not end as the oracle script allows (code {k}; 9 = more kernel calls than scripted)")
@@ -862,6 +977,13 @@ def unix_random_case(rng: random.Random) -> UnixRun:
     def block():
         return rng.choices([U_READY, U_CANCEL, U_CLOSE], [6, 1, 0 if closing else 1])[0]
 
+    def intruders():
+        """30% of the waits: 1-3 other tasks try the same direction of the stream while the call is parked"""
+        if rng.random() >= 0.3:
+            return []
+        pool = [E_SEND, E_SENDEOF, E_SENDEOF, E_SENDFDS] if kind == 0 else [E_RECEIVE, E_RECEIVEFDS]
+        return [rng.choice(pool) for _ in range(rng.choice([1, 1, 2, 3]))]
+
     if kind == 0:
         n = rng.choice([0, 1, 2, 3, 5, 8, 13, 40])
         item = fresh(n)
@@ -879,7 +1001,8 @@ def unix_random_case(rng: random.Random) -> UnixRun:
                 rem -= min(k, rem)
             elif x < 0.92:
                 wk = block()
-                script.append((wk, 0))
+                es = intruders()
+                script.append((U_PARK + wk, enc_entries(es)) if es else (wk, 0))
                 if wk == U_CANCEL:
                     break
                 if wk == U_CLOSE:
@@ -907,7 +1030,8 @@ def unix_random_case(rng: random.Random) -> UnixRun:
                 break
             if x < 0.93:
                 wk = block()
-                script.append((wk, 0, ()))
+                es = intruders()
+                script.append((U_PARK + wk, 0, tuple(es)) if es else (wk, 0, ()))
                 if wk == U_CANCEL:
                     break
                 if wk == U_CLOSE:
@@ -927,8 +1051,10 @@ def unix_exhaustive(max_len: int):
     receive script over {data, eof, Ready, Cancel, Close, Err}; scripts the model runs out of are dropped later."""
     import itertools
     runs = []
-    salpha = [(U_OK, 1), (U_OK, 2), (U_READY, 0), (U_CANCEL, 0), (U_CLOSE, 0), (U_ERR, 0)]
-    ralpha = [(U_OK, 0, (5, 6)), (U_OK, 0, ()), (U_READY, 0, ()), (U_CANCEL, 0, ()), (U_CLOSE, 0, ()), (U_ERR, 0, ())]
+    salpha = [(U_OK, 1), (U_OK, 2), (U_READY, 0), (U_CANCEL, 0), (U_CLOSE, 0), (U_ERR, 0),
+              (U_PARK + U_READY, enc_entries([E_SENDEOF])), (U_PARK + U_READY, enc_entries([E_SEND, E_SENDFDS]))]
+    ralpha = [(U_OK, 0, (5, 6)), (U_OK, 0, ()), (U_READY, 0, ()), (U_CANCEL, 0, ()), (U_CLOSE, 0, ()), (U_ERR, 0, ()),
+              (U_PARK + U_READY, 0, (E_RECEIVE, E_RECEIVEFDS))]
     for L in range(0, max_len + 1):
         for sc in itertools.product(salpha, repeat=L):
             for n in range(0, 4):
@@ -955,7 +1081,13 @@ NOT_EXHIBITED = [
     "whenever it could not hand everything to the kernel; kernel recv(n) returns at most n bytes, send() accepts 1..len bytes",
     "transport.is_closing() and protocol.connection_lost() are one atomic env op in the model (in asyncio the flag is set one "
     "loop iteration earlier; the checkpoint in receive()/send() makes the window unobservable on FIFO loops)",
-    "receive_fds/send_fds, UDP and listeners are out of scope; accept()/connect() are exercised end-to-end only",
+    "receive_fds/send_fds are modelled only as entry points that must be refused while the same direction is in use "
+    "(UnixLoop intruders); their own loops, UDP and listeners are out of scope; accept()/connect() are exercised end-to-end only",
+    "SocketStream.send_eof() (TCP / wrapped sockets) takes no guard at HEAD, by design: transport.write_eof() shuts the socket down "
+    "only after the transport's write buffer has drained, so a send_eof() of a second task during a parked send() neither truncates "
+    "the message nor fails the send (SockProto models SendEof without a guard; the end-to-end scenario eof_during_send checks the "
+    "peer still gets the complete message and records accepted/busy as a fact).  UNIXSocketStream.send_eof() acts on the raw socket "
+    "at once and therefore must run under the send guard (UnixLoop intruders; seeded change C18/d)",
     "back-pressure bounds of the end-to-end monitors (16 MiB in flight for TCP, 4 MiB for UNIX, 12 MiB read queue) are "
     "empirical margins over the kernel defaults of this machine, not theorems",
     "closing a raw UNIX socket with unread input makes the KERNEL reset the connection (peer sees BrokenResourceError): "
@@ -1091,7 +1223,7 @@ def check(tier: str) -> int:
         ucs.append(c)
         uexp.append(r.expected)
         umo.append(m)
-    udis = [{"model": "UnixLoop", "case": c, "script_readable": [(UOPN[e[0]],) + tuple(e[1:]) for e in r.script],
+    udis = [{"model": "UnixLoop", "case": c, "script_readable": script_readable(r.kind, r.script),
              "impl": e, "model_out": m}
             for r, c, e, m in zip(uruns, ucs, uexp, umo) if e != m]
     umon = [(r, msg) for r in uruns for msg in r.mon]
@@ -1131,13 +1263,16 @@ def check(tier: str) -> int:
                              "ops": [list(o) for o in rs.ops], "ops_readable": readable(rs.ops), "all_messages": rs.mon[:6],
                              "replay": "c18.sock_run_script(reading0, ntasks, [tuple(o) for o in ops], quiesce=False).mon"})
     seen = set()
+    import re as _re
     for r, msg in sorted(umon, key=lambda x: len(x[0].case())):
-        if msg in seen or len(seen) >= 4:
+        key = _re.sub(r"\d+", "N", msg)          # one replay per kind of message, the shortest case of each
+        if key in seen or len(seen) >= 5:
             continue
-        seen.add(msg)
+        seen.add(key)
         rep.violation(msg, {"kind": "monitor", "model": "UnixLoop", "call": "send" if r.kind == 0 else "receive",
                             "cancel0": r.cancel0, "busy": r.busy, "closing0": r.closing0, "max_bytes": r.mx, "item": r.item,
-                            "script": [list(e) for e in r.script], "script_readable": [(UOPN[e[0]],) + tuple(e[1:]) for e in r.script],
+                            "script": [list(e) for e in r.script], "script_readable": script_readable(r.kind, r.script),
+                            "intruders": [(ENTRYN[a], {7: "BusyResourceError", 14: "accepted"}.get(c, "other error"), f"after {at} bytes") for a, c, at in r.intr],
                             "send_call_args": [list(a) for a in r.send_args[:8]], "handed": list(r.handed), "case": r.case(),
                             "replay": "c18.UnixRun(kind, cancel0, busy, closing0, mx, item, script).execute().mon"})
     seen = set()
@@ -1176,7 +1311,7 @@ def check(tier: str) -> int:
     interesting = {"chunk_split_or_exact", "busy_recv", "busy_send", "send_waited_for_gate", "recv_after_close", "cancel_in_call",
                    "end_of_stream"}
     distinct = len({tuple(c) for c, r in zip(scases, sruns) if r.flags & interesting}) + \
-        len({tuple(c) for c, r in zip(ucs, uruns) if r.flags & {"partial_send", "would_block", "closed_error", "busy"}})
+        len({tuple(c) for c, r in zip(ucs, uruns) if r.flags & {"partial_send", "would_block", "closed_error", "busy", "intruder:send_eof"}})
     opcount: dict[str, int] = {}
     for r in sruns:
         for o in r.ops:
@@ -1192,6 +1327,7 @@ def check(tier: str) -> int:
             "writer_stalled_at_bytes": f.get("bp_stalled_at"),
             "busy_both_directions": f.get("busy"),
             "leftover_after_close": f.get("close_leftover_returned"),
+            "send_eof_by_second_task_during_parked_send": f.get("eof_during_send"),
             "violations": len(d["violations"]),
             "wall_s": round(sum(s[2] for s in f.get("scenario_s", [])), 1),
         }
@@ -1206,7 +1342,7 @@ def check(tier: str) -> int:
                 "task: resume if its wake-up is queued, native cancel; transport callbacks at any time, 70% of the cases under the "
                 "transport contract), 1-4 tasks, then quiescence; plus exhaustive enumeration of all enabled op sequences over a small "
                 "alphabet to a fixed depth.  UnixLoop: random oracle scripts generated by simulating the call (10% contract-violating "
-                "answers), plus every script over a 6-letter alphabet up to a fixed length.  Non-trivial = reaches a chunk split, a "
+                "answers), plus every script over an 8-letter alphabet (incl. waits during which other tasks call send/send_eof/send_fds resp. receive/receive_fds on the same stream) up to a fixed length.  Non-trivial = reaches a chunk split, a "
                 "rejected concurrent call, a send waiting for the gate, a call on a closed stream, a cancellation inside a call, "
                 "EndOfStream, a partial send, a would-block wait.  End-to-end: 6 configurations x scenarios on real sockets",
         "exhaustive_small_scope_cases": {"SockProto": n_ex_s, "UnixLoop": n_ex_u},
@@ -1226,7 +1362,8 @@ def check(tier: str) -> int:
     for need in ("sock:chunk_split_or_exact", "sock:busy_recv", "sock:busy_send", "sock:send_waited_for_gate",
                  "sock:recv_after_close", "sock:recv_closed_error", "sock:send_closed_error", "sock:end_of_stream",
                  "sock:cancel_in_call", "sock:recv_broken", "unix:partial_send", "unix:would_block", "unix:closed_error",
-                 "unix:busy", "unix:cancelled", "unix:recv_eof"):
+                 "unix:busy", "unix:cancelled", "unix:recv_eof", "unix:intruder:send", "unix:intruder:send_eof",
+                 "unix:intruder:send_fds", "unix:intruder:receive", "unix:intruder:receive_fds"):
         if not flags.get(need):
             rep.notes.append(f"generator self-check: predicate {need} never reached")
     return rep.finish()
